@@ -15,6 +15,7 @@ struct BuildOpts {
     const char* setter_kinds = "SDTO";   // which setter kinds may be applied (S scalar, D derived, T tag, O typed option)
     unsigned max_setters_per_layer = 4;
     size_t max_payload = 256;
+    bool spoofed_option_lengths = false; // raw options whose advertised length field differs from the data size (documented PDUOption ctor)
     bool radiotap_setters = true;        // (was off until finding #26 - RadioTapWriter::update_paddings - was repaired)
 };
 
@@ -52,6 +53,23 @@ inline unsigned n_layer_classes() {
     return n;
 }
 
+// ICMP / ICMPv6 layers with a meaningful message type (uniform type bytes almost never select the type-specific bodies)
+inline Tins::ICMPv6* gen_icmpv6(Src& s) {
+    using namespace Tins;
+    static const uint8_t T[] = {1, 2, 3, 4, 128, 129, 130, 131, 132, 133, 134, 135, 136, 137, 143, 143, 130};
+    ICMPv6* p = new ICMPv6((ICMPv6::Types)T[s.pick(sizeof T)]);
+    try {
+        if (p->type() == ICMPv6::MLD2_REPORT && s.chance(70)) p->multicast_address_records(genv(s, Tag<ICMPv6::multicast_address_records_list>()));
+        if (p->type() == ICMPv6::MGM_QUERY && s.chance(50)) { p->use_mldv2(true); p->sources(genv(s, Tag<ICMPv6::sources_list>())); }
+    } catch (const exception_base&) {}
+    return p;
+}
+inline Tins::ICMP* gen_icmp(Src& s) {
+    using namespace Tins;
+    static const uint8_t T[] = {0, 3, 4, 5, 8, 11, 12, 13, 14, 15, 16, 17, 18};
+    return new ICMP((ICMP::Flags)T[s.pick(sizeof T)]);
+}
+
 inline Tins::RawPDU* gen_raw(Src& s, size_t max_payload, bool nonempty = false) {
     size_t n = gen_len(s, max_payload);
     if (nonempty && n == 0) n = 1;
@@ -60,7 +78,14 @@ inline Tins::RawPDU* gen_raw(Src& s, size_t max_payload, bool nonempty = false) 
 }
 
 // raw option programs on option-bearing layers: add raw / remove / re-add
-inline void option_program(Tins::PDU& layer, Src& s, std::vector<std::string>& prog) {
+// advertised length for a raw option: normally the data size; with `spoof` sometimes a different value
+inline uint16_t adv_len(Src& s, size_t data_size, bool spoof, unsigned maxv) {
+    if (!spoof || !s.chance(20)) return (uint16_t)data_size;
+    uint64_t v = s.chance(50) ? data_size + 1 + s.range(0, 3) : (data_size ? data_size - 1 - s.range(0, data_size - 1 > 3 ? 3 : data_size - 1) : 1);
+    return (uint16_t)(v > maxv ? maxv : v);
+}
+
+inline void option_program(Tins::PDU& layer, Src& s, std::vector<std::string>& prog, bool spoof = false) {
     using namespace Tins;
     unsigned steps = (unsigned)s.weighted({4, 3, 2, 1, 1});
     for (unsigned i = 0; i < steps; ++i) {
@@ -70,12 +95,12 @@ inline void option_program(Tins::PDU& layer, Src& s, std::vector<std::string>& p
             if (TCP* t = dynamic_cast<TCP*>(&layer)) {
                 uint8_t code = (uint8_t)s.edgy(8);
                 if (remove) { bool r = t->remove_option((TCP::OptionTypes)code); d << "TCP::remove_option(" << (int)code << ")=" << r; }
-                else { std::vector<uint8_t> b = s.bytes(gen_len(s, 38)); t->add_option(TCP::option((TCP::OptionTypes)code, b.begin(), b.end())); d << "TCP::add_option(" << (int)code << "," << hex(b) << ")"; }
+                else { std::vector<uint8_t> b = s.bytes(gen_len(s, 38)); t->add_option(TCP::option((TCP::OptionTypes)code, adv_len(s, b.size(), spoof, 255), b.begin(), b.end())); d << "TCP::add_option(" << (int)code << "," << hex(b) << ")"; }
             } else if (IP* ip = dynamic_cast<IP*>(&layer)) {
                 uint8_t raw = (uint8_t)s.edgy(8);
                 IP::option_identifier id((IP::OptionNumber)(raw & 0x1f), (IP::OptionClass)((raw >> 5) & 3), (small_uint<1>)(raw >> 7));
                 if (remove) { bool r = ip->remove_option(id); d << "IP::remove_option(" << (int)raw << ")=" << r; }
-                else { std::vector<uint8_t> b = s.bytes(gen_len(s, 38)); ip->add_option(IP::option(id, b.begin(), b.end())); d << "IP::add_option(" << (int)raw << "," << hex(b) << ")"; }
+                else { std::vector<uint8_t> b = s.bytes(gen_len(s, 38)); ip->add_option(IP::option(id, adv_len(s, b.size(), spoof, 255), b.begin(), b.end())); d << "IP::add_option(" << (int)raw << "," << hex(b) << ")"; }
             } else if (IPv6* v6 = dynamic_cast<IPv6*>(&layer)) {
                 static const uint8_t EH[] = {0, 43, 44, 60, 51, 50, 135, 59, 6, 17};
                 uint8_t code = s.chance(80) ? EH[s.pick(sizeof EH)] : (uint8_t)s.edgy(8);
@@ -85,23 +110,23 @@ inline void option_program(Tins::PDU& layer, Src& s, std::vector<std::string>& p
             } else if (DHCP* dh = dynamic_cast<DHCP*>(&layer)) {
                 uint8_t code = (uint8_t)s.edgy(8);
                 if (remove) { bool r = dh->remove_option((DHCP::OptionTypes)code); d << "DHCP::remove_option(" << (int)code << ")=" << r; }
-                else { std::vector<uint8_t> b = s.bytes(gen_len(s, 255)); dh->add_option(DHCP::option(code, b.begin(), b.end())); d << "DHCP::add_option(" << (int)code << "," << hex(b) << ")"; }
+                else { std::vector<uint8_t> b = s.bytes(gen_len(s, 255)); dh->add_option(DHCP::option(code, adv_len(s, b.size(), spoof, 255), b.begin(), b.end())); d << "DHCP::add_option(" << (int)code << "," << hex(b) << ")"; }
             } else if (DHCPv6* d6 = dynamic_cast<DHCPv6*>(&layer)) {
                 uint16_t code = (uint16_t)s.edgy(16);
                 if (remove) { bool r = d6->remove_option((DHCPv6::OptionTypes)code); d << "DHCPv6::remove_option(" << code << ")=" << r; }
-                else { std::vector<uint8_t> b = s.bytes(gen_len(s, 300)); d6->add_option(DHCPv6::option(code, b.begin(), b.end())); d << "DHCPv6::add_option(" << code << "," << hex(b) << ")"; }
+                else { std::vector<uint8_t> b = s.bytes(gen_len(s, 300)); d6->add_option(DHCPv6::option(code, adv_len(s, b.size(), spoof, 65535), b.begin(), b.end())); d << "DHCPv6::add_option(" << code << "," << hex(b) << ")"; }
             } else if (ICMPv6* i6 = dynamic_cast<ICMPv6*>(&layer)) {
                 uint8_t code = (uint8_t)s.edgy(8);
                 if (remove) { bool r = i6->remove_option((ICMPv6::OptionTypes)code); d << "ICMPv6::remove_option(" << (int)code << ")=" << r; }
-                else { std::vector<uint8_t> b = s.bytes(gen_len(s, 255)); i6->add_option(ICMPv6::option(code, b.begin(), b.end())); d << "ICMPv6::add_option(" << (int)code << "," << hex(b) << ")"; }
+                else { std::vector<uint8_t> b = s.bytes(gen_len(s, 255)); i6->add_option(ICMPv6::option(code, adv_len(s, b.size(), spoof, 255), b.begin(), b.end())); d << "ICMPv6::add_option(" << (int)code << "," << hex(b) << ")"; }
             } else if (Dot11* d11 = dynamic_cast<Dot11*>(&layer)) {
                 uint8_t code = (uint8_t)s.edgy(8);
                 if (remove) { bool r = d11->remove_option((Dot11::OptionTypes)code); d << "Dot11::remove_option(" << (int)code << ")=" << r; }
-                else { std::vector<uint8_t> b = s.bytes(gen_len(s, 255)); d11->add_option(Dot11::option(code, b.begin(), b.end())); d << "Dot11::add_option(" << (int)code << "," << hex(b) << ")"; }
+                else { std::vector<uint8_t> b = s.bytes(gen_len(s, 255)); d11->add_option(Dot11::option(code, adv_len(s, b.size(), spoof, 255), b.begin(), b.end())); d << "Dot11::add_option(" << (int)code << "," << hex(b) << ")"; }
             } else if (PPPoE* pe = dynamic_cast<PPPoE*>(&layer)) {
                 uint16_t code = (uint16_t)s.edgy(16);
                 std::vector<uint8_t> b = s.bytes(gen_len(s, 300));
-                pe->add_tag(PPPoE::tag((PPPoE::TagTypes)code, b.begin(), b.end()));
+                pe->add_tag(PPPoE::tag((PPPoE::TagTypes)code, adv_len(s, b.size(), spoof, 65535), b.begin(), b.end()));
                 d << "PPPoE::add_tag(" << code << "," << hex(b) << ")";
             } else if (RTP* rtp = dynamic_cast<RTP*>(&layer)) {
                 uint32_t v = (uint32_t)s.edgy(32);
@@ -243,8 +268,8 @@ inline Built build_packet(Src& s, Ctx& ctx, const BuildOpts& o = BuildOpts()) {
                 switch (tr) {
                     case 0: add(new TCP((uint16_t)s.edgy(16), (uint16_t)s.edgy(16)), "TCP"); break;
                     case 1: add(new UDP((uint16_t)s.edgy(16), (uint16_t)s.edgy(16)), "UDP"); udp = true; break;
-                    case 2: if (v6) add(new ICMPv6(), "ICMPv6"); else add(new ICMP(), "ICMP"); break;
-                    case 3: if (v6 || !has_net) add(new ICMPv6(), "ICMPv6"); else add(new ICMP(), "ICMP"); break;
+                    case 2: if (v6) add(gen_icmpv6(s), "ICMPv6"); else add(gen_icmp(s), "ICMP"); break;
+                    case 3: if (v6 || !has_net) add(gen_icmpv6(s), "ICMPv6"); else add(gen_icmp(s), "ICMP"); break;
                     default: break;
                 }
                 unsigned app = (unsigned)s.weighted({8, 2, 2, 2, 1, 1, 1, 3});
@@ -271,7 +296,7 @@ inline Built build_packet(Src& s, Ctx& ctx, const BuildOpts& o = BuildOpts()) {
     // setters and option programs on every layer
     for (PDU* p = b.pdu.get(); p; p = p->inner_pdu()) {
         if (s.chance(70)) apply_setters(*p, s, o, b.program);
-        if (o.allow_option_programs && s.chance(50)) option_program(*p, s, b.program);
+        if (o.allow_option_programs && s.chance(50)) option_program(*p, s, b.program, o.spoofed_option_lengths);
         enforce_capacity(*p, ctx, b.program);
     }
     // an outermost IP with source 0.0.0.0 makes serialize() consult the host routing table (documented): excluded by construction
